@@ -1,51 +1,94 @@
-(* C16 proofs about Display for MigrationAction: it panics exactly on a RawSql longer than 50 bytes
-   whose byte 47 lies inside a multi-byte character. *)
+(* C16 proofs about Display for MigrationAction after fix b4532c3: the RawSql arm cuts at the largest char
+   boundary at or below byte 47, so the slice is always legal — Display is total — and the text is the old one
+   wherever the old code did not panic (in particular for ASCII). *)
 From VV.EXP Require Import Display.
 From Coq Require Import Lia.
 
+Lemma floor_le s : forall n, (floor_char_boundary s n <= n)%nat.
+Proof. induction n as [|k IH]; cbn [floor_char_boundary]; [lia|]. destruct (is_char_boundary s (S k)); lia. Qed.
+
+Lemma floor_is_boundary s : forall n, is_char_boundary s (floor_char_boundary s n) = true.
+Proof.
+  induction n as [|k IH]; cbn [floor_char_boundary]; [reflexivity|].
+  destruct (is_char_boundary s (S k)) eqn:E; [exact E | exact IH].
+Qed.
+
+Lemma floor_id s n : is_char_boundary s n = true -> floor_char_boundary s n = n.
+Proof. destruct n as [|k]; cbn [floor_char_boundary]; [reflexivity|]. now intros ->. Qed.
+
+(* the guard in front of &sql[..end] always holds *)
+Lemma slice_floor_some s n : (n <= String.length s)%nat ->
+  slice_to s (floor_char_boundary s n) = Some (substring 0 (floor_char_boundary s n) s).
+Proof.
+  intro L. unfold slice_to. rewrite floor_is_boundary.
+  assert (H : Nat.leb (floor_char_boundary s n) (String.length s) = true).
+  { apply Nat.leb_le. pose proof (floor_le s n). lia. }
+  rewrite H. reflexivity.
+Qed.
+
 Lemma rawsql_display sql :
   display (RawSql sql) =
-    if (Nat.leb (String.length sql) 50 || is_char_boundary sql 47)%bool
-    then (if Nat.ltb 50 (String.length sql) then Txt ("RawSql: " +++ substring 0 47 sql +++ "...")
-          else Txt ("RawSql: " +++ sql))
-    else Panic.
+    if Nat.ltb 50 (String.length sql)
+    then Txt ("RawSql: " +++ substring 0 (floor_char_boundary sql 47) sql +++ "...")
+    else Txt ("RawSql: " +++ sql).
 Proof.
-  cbn [display]. unfold slice_to.
-  destruct (Nat.ltb 50 (String.length sql)) eqn:E.
-  - apply Nat.ltb_lt in E.
-    assert (L1 : Nat.leb (String.length sql) 50 = false) by (apply Nat.leb_gt; lia).
-    assert (L2 : Nat.leb 47 (String.length sql) = true) by (apply Nat.leb_le; lia).
-    rewrite L1, L2. cbn [orb andb]. destruct (is_char_boundary sql 47); reflexivity.
-  - apply Nat.ltb_ge in E.
-    assert (L1 : Nat.leb (String.length sql) 50 = true) by (apply Nat.leb_le; lia).
-    rewrite L1. reflexivity.
+  cbn [display]. destruct (Nat.ltb 50 (String.length sql)) eqn:E; [|reflexivity].
+  apply Nat.ltb_lt in E. rewrite slice_floor_some by lia. reflexivity.
 Qed.
 
-Theorem display_panic_iff a : display a = Panic <-> rawsql_ok a = false.
+(* Display is total: no action, whatever its text, makes it panic *)
+Theorem display_total a : exists s, display a = Txt s.
 Proof.
-  destruct a; try (cbn [display rawsql_ok]; split; discriminate).
-  - (* ModifyColumnComment *) destruct new_comment; cbn [display rawsql_ok]; split; discriminate.
-  - rewrite rawsql_display. cbn [rawsql_ok].
-    destruct (Nat.leb (String.length sql) 50 || is_char_boundary sql 47)%bool.
-    + destruct (Nat.ltb 50 (String.length sql)); split; discriminate.
-    + split; reflexivity.
+  destruct a; try (cbn [display]; eauto; fail).
+  - destruct new_comment; cbn [display]; eauto.
+  - rewrite rawsql_display. destruct (Nat.ltb 50 (String.length sql)); eauto.
 Qed.
 
-Theorem display_total a : rawsql_ok a = true -> exists s, display a = Txt s.
+(* wherever the code before the fix did not panic, the text is unchanged *)
+Theorem display_rawsql_unchanged sql :
+  (Nat.leb (String.length sql) 50 || is_char_boundary sql 47)%bool = true ->
+  display (RawSql sql) = display_rawsql_before_fix sql.
 Proof.
-  intro H. destruct (display a) eqn:E; [eauto|].
-  apply display_panic_iff in E. congruence.
+  intro H. rewrite rawsql_display. unfold display_rawsql_before_fix.
+  destruct (Nat.ltb 50 (String.length sql)) eqn:E; [|reflexivity].
+  apply Nat.ltb_lt in E. assert (L : Nat.leb (String.length sql) 50 = false) by (apply Nat.leb_gt; lia).
+  rewrite L in H. cbn [orb] in H. now rewrite (floor_id _ _ H).
 Qed.
 
-(* 46 ASCII bytes, then U+00E9 (bytes 195 169), then "abc": 51 bytes, byte 47 = 169 is a continuation byte *)
+Lemma all_ascii_get s : all_ascii s = true -> forall i a, String.get i s = Some a -> is_cont a = false.
+Proof.
+  induction s as [|c r IH]; intros A i a G; [destruct i; discriminate|].
+  cbn [all_ascii] in A. apply andb_true_iff in A. destruct A as [Ac Ar].
+  destruct i as [|i]; cbn [String.get] in G.
+  - injection G as <-. unfold is_cont. apply N.ltb_lt in Ac.
+    assert (X : N.leb 128 (N_of_ascii c) = false) by (apply N.leb_gt; exact Ac). now rewrite X.
+  - eapply IH; eauto.
+Qed.
+
+Theorem display_rawsql_ascii sql : all_ascii sql = true -> display (RawSql sql) = display_rawsql_before_fix sql.
+Proof.
+  intro A. apply display_rawsql_unchanged. apply orb_true_iff.
+  destruct (Nat.leb (String.length sql) 50) eqn:L; [now left|right].
+  unfold is_char_boundary. destruct (String.get 47 sql) as [a|] eqn:G.
+  - now rewrite (all_ascii_get _ A _ _ G).
+  - (* no byte 47: the string is shorter than 48 bytes, contradiction with len > 50 *)
+    exfalso. apply Nat.leb_gt in L.
+    assert (X : forall s i, String.get i s = None -> (String.length s <= i)%nat).
+    { clear. induction s as [|c r IH]; intros i G; cbn [String.length]; [lia|].
+      destruct i as [|i]; cbn [String.get] in G; [discriminate|]. specialize (IH _ G). lia. }
+    specialize (X _ _ G). lia.
+Qed.
+
+(* the former witness of D3 (46 ASCII bytes, U+00E9, "abc") now renders: cut in front of the 2-byte character *)
 Definition d3_sql : string :=
   string_of_list_ascii (repeat "x"%char 46) +++ String (ascii_of_N 195) (String (ascii_of_N 169) "abc").
 Definition d3_witness : action := RawSql d3_sql.
 
-Theorem display_total_refuted : exists a, display a = Panic.
-Proof. exists d3_witness. vm_compute. reflexivity. Qed.
+Example d3_witness_fixed :
+  display d3_witness = Txt ("RawSql: " +++ string_of_list_ascii (repeat "x"%char 46) +++ "...")
+  /\ known_C16_rawsql_slice d3_witness = true.
+Proof. split; vm_compute; reflexivity. Qed.
 
 (* the CLI renderer never slices bytes: it has no Panic outcome at all *)
 Theorem format_action_total a : exists s, format_action a = Txt s.
 Proof. destruct a; cbn [format_action]; eauto. Qed.
-
